@@ -276,9 +276,11 @@ def addMissingLoop (known : List Imp) (all : List (Nat × Str)) :
     match lookupKnown known name with
     | [imp] =>
       if imp ∈ added then addMissingLoop known all st added rest
-      else do
-        let st' ← addImport st imp (firstUse all name)
-        addMissingLoop known all st' (imp :: added) rest
+      else
+        match addImport st imp (firstUse all name) with
+        | .ok st' => addMissingLoop known all st' (imp :: added) rest
+        | .error .importAlreadyExists => addMissingLoop known all st (imp :: added) rest
+        | .error e => .error e
     | _ => addMissingLoop known all st added rest
 
 def addMandatoryLoop : St → List Imp → Except Err St
